@@ -94,17 +94,26 @@ func cellFromRow(binding string, r table.Row) (*table.Cell, error) {
 // formatCell formats a given cell into a trimmed comparable string.
 func formatCell(c *table.Cell) (string, error) {
 	if c.L != nil {
+		if c.L.Type() == literal.Text {
+			// Text is compared by its characters. The quoted form orders a text
+			// after its own prefixes when it goes on with a character before '"'.
+			t, err := c.L.Text()
+			if err != nil {
+				return "", err
+			}
+			return textCellPrefix + t, nil
+		}
 		return strings.TrimSpace(c.L.ToComparableString()), nil
 	}
 	if c.S != nil {
-		formatted, err := literal.DefaultBuilder().Build(literal.Text, *c.S)
-		if err != nil {
-			return "", fmt.Errorf("formatCell failed, could not build a text literal from the string %q, got error: %v", *c.S, err)
-		}
-		return strings.TrimSpace(formatted.ToComparableString()), nil
+		return textCellPrefix + *c.S, nil
 	}
 	return strings.TrimSpace(c.String()), nil
 }
+
+// textCellPrefix starts the comparable string of text literals and strings. The
+// comparable strings of all the other cells start with a quote, a slash or a digit.
+const textCellPrefix = "text:"
 
 // compareNumbers compares two literals numerically if both are int64 or both
 // are float64. It returns a negative number, zero or a positive number if l is
@@ -259,7 +268,10 @@ func (e *comparisonForLiteral) Evaluate(r table.Row) (bool, error) {
 	if err != nil {
 		return false, fmt.Errorf("comparisonForLiteral.Evaluate failed, the call for formatCell(%s) returned error: %v", leftBinding, err)
 	}
-	csER = rightLiteral.ToComparableString()
+	csER, err = formatCell(&table.Cell{L: rightLiteral})
+	if err != nil {
+		return false, fmt.Errorf("comparisonForLiteral.Evaluate failed, the call for formatCell(%s) returned error: %v", rightLiteral, err)
+	}
 
 	switch e.operation {
 	case EQ:
